@@ -318,7 +318,8 @@ func init() {
 					c.NonTrivial("gc", fmt.Sprint(c.Idx, i))
 					c.Obs("gc_callback_values", 1)
 				}
-				c.Sample(map[string]any{"family": "GC/stack-growth callbacks", "values": 12})
+				c08StackResident(c, 100)
+				c.Sample(map[string]any{"family": "GC/stack-growth callbacks", "values": 12, "stack_resident_entry_points": len(stackEntries)})
 			}
 		},
 	})
